@@ -389,7 +389,9 @@ class Executor(Engine, ExprMixin, StmtMixin, CallMixin):
                     gv = self.eval_in(st, c, env2, gexpr)
                     m[g] = gv.t
                 insts.append(m)
-        for name, expr in c.ensures.items():
+        if c.assume_ensures:
+            self.trust('assumed (unproved) postconditions of %s: %s' % (c.qual, ', '.join(sorted(c.assume_ensures))))
+        for name, expr in list(c.ensures.items()) + list(c.assume_ensures.items()):
             if 'FOLD(' in expr:
                 continue
             if any(k in expr for k in ('all_calls(', 'calls_ordered(', 'each_call_preceded(')):
